@@ -67,7 +67,7 @@ def cConsts : String :=
     toString COTPConnectionBase_HEADER_SIZE, toString RDPNegotiationBase_PACKET_LENGTH,
     toString OpenVpnPacketBase_HEADER_SIZE, toString Sync_MESSAGE_SIZE, hexOrDash Sync_COMMAND,
     toString SslRequest_MESSAGE_SIZE, toString SslRequest_REQUEST_CODE,
-    toString CLIENT_PROTOCOL_41, toString CLIENT_PLUGIN_AUTH,
+    toString CLIENT_PROTOCOL_41, toString CLIENT_PLUGIN_AUTH, toString CLIENT_SECURE_CONNECTION,
     toString CotpClass.request.typeCode, toString CotpClass.confirm.typeCode,
     toString RdpNegClass.request.typeCode, toString RdpNegClass.response.typeCode,
     toString OP_CONTROL_V1, toString OP_ACK_V1, toString OP_HARD_RESET_CLIENT_V2,
